@@ -86,6 +86,8 @@ type Case struct {
 	// chain re-organises: head events report changed duty-dependent roots and the
 	// beacon node answers with a new duty table from then on.
 	Reorg *ReorgSpec `json:"reorg,omitempty"`
+	// Refail: after that (or directly after start-up) a re-subscription attempt that fails.
+	Refail *RefailSpec `json:"refail,omitempty"`
 }
 
 // ReorgSpec is the history step "duties of an epoch change".
@@ -96,6 +98,38 @@ type ReorgSpec struct {
 	// The duty table after the reorg (both epochs; epochs whose root did not change are as before).
 	Committees []CommitteeSpec `json:"committees"`
 	Duties     []DutySpec      `json:"duties"`
+	// SubscribeFails: the re-subscription triggered by this reorg fails (the beacon node
+	// does not answer the subscriber's attester duties request).
+	SubscribeFails bool `json:"subscribe_fails,omitempty"`
+}
+
+// RefailSpec is the history step "a later re-subscription attempt fails": a further
+// head event with changed duty-dependent roots while the duty table stays as it is and
+// the subscriber's attester duties request is refused.
+type RefailSpec struct {
+	Previous bool `json:"previous_root_changed"`
+	Current  bool `json:"current_root_changed"`
+}
+
+// flag is a switch shared between the harness and a double.
+type flag struct {
+	mu sync.Mutex
+	on bool
+}
+
+func (f *flag) set(v bool) {
+	f.mu.Lock()
+	f.on = v
+	f.mu.Unlock()
+}
+
+func (f *flag) get() bool {
+	if f == nil {
+		return false
+	}
+	f.mu.Lock()
+	defer f.mu.Unlock()
+	return f.on
 }
 
 // table is the duty table the beacon node double currently serves.
@@ -234,8 +268,9 @@ func (s *slotSigner) SignSlotSelections(_ context.Context, accounts []e2wtypes.A
 
 // dutiesProvider is the beacon node's attester duties endpoint.
 type dutiesProvider struct {
-	c *Case
-	t *table
+	c    *Case
+	t    *table
+	fail *flag // while on, the request is refused
 }
 
 func (p *dutiesProvider) AttesterDuties(_ context.Context, opts *api.AttesterDutiesOpts) (*api.Response[[]*apiv1.AttesterDuty], error) {
@@ -244,6 +279,9 @@ func (p *dutiesProvider) AttesterDuties(_ context.Context, opts *api.AttesterDut
 		want[i] = true
 	}
 	res := []*apiv1.AttesterDuty{}
+	if p.fail.get() {
+		return nil, fmt.Errorf("scripted attester duties failure")
+	}
 	committees, duties := p.t.get()
 	for _, d := range duties {
 		cm := committees[d.C]
@@ -546,6 +584,18 @@ func genCase(t *rapid.T) Case {
 	c.Duties = perm
 	if c.Epoch >= 1 && rapid.IntRange(0, 4).Draw(t, "reorg") < 2 {
 		c.Reorg = genReorg(t, &c)
+		c.Reorg.SubscribeFails = rapid.IntRange(0, 3).Draw(t, "reorgSubscribeFails") == 0
+	}
+	if c.Epoch >= 1 && rapid.IntRange(0, 3).Draw(t, "refail") == 0 {
+		c.Refail = &RefailSpec{}
+		switch rapid.SampledFrom([]string{"previous", "previous", "current", "both"}).Draw(t, "refailRoots") {
+		case "previous":
+			c.Refail.Previous = true
+		case "current":
+			c.Refail.Current = true
+		default:
+			c.Refail.Previous, c.Refail.Current = true, true
+		}
 	}
 	return c
 }
@@ -758,6 +808,9 @@ func validCase(c *Case) error {
 	if err := validTable(c, c.Committees, c.Duties); err != nil {
 		return err
 	}
+	if f := c.Refail; f != nil && (c.Epoch == 0 || !(f.Previous || f.Current)) {
+		return fmt.Errorf("malformed failing re-subscription step")
+	}
 	if r := c.Reorg; r != nil {
 		if c.Epoch == 0 || c.CurrentInEpoch+r.Advance >= c.SlotsPerEpoch || !(r.Previous || r.Current) {
 			return fmt.Errorf("malformed reorg step")
@@ -808,6 +861,7 @@ type stats struct {
 	slotsAttested                   int
 	reorg, reorgNewFuturePair       bool
 	reorgNewAggregatorPair          bool
+	refail, failedRefreshWithChange bool
 }
 
 type env struct {
@@ -850,13 +904,13 @@ func newEnv(ctx context.Context, c *Case) (*env, error) {
 	return e, nil
 }
 
-func (e *env) newSubscriber(ctx context.Context, sub *subsSubmitter) (*standardsubscriber.Service, error) {
+func (e *env) newSubscriber(ctx context.Context, sub *subsSubmitter, fail *flag) (*standardsubscriber.Service, error) {
 	return standardsubscriber.New(ctx,
 		standardsubscriber.WithLogLevel(zerolog.Disabled),
 		standardsubscriber.WithMonitor(nullmetrics.New()),
 		standardsubscriber.WithProcessConcurrency(4),
 		standardsubscriber.WithChainTimeService(e.clock),
-		standardsubscriber.WithAttesterDutiesProvider(&dutiesProvider{e.c, e.tab}),
+		standardsubscriber.WithAttesterDutiesProvider(&dutiesProvider{e.c, e.tab, fail}),
 		standardsubscriber.WithAttestationAggregator(e.realAgg),
 		standardsubscriber.WithBeaconCommitteeSubmitter(sub),
 	)
@@ -1094,7 +1148,7 @@ func runAndJudge(c *Case) (string, []judgement, stats) {
 
 	// ---- phase 1: Subscribe called directly for both epochs
 	sub1 := &subsSubmitter{}
-	s1, err := e.newSubscriber(ctx, sub1)
+	s1, err := e.newSubscriber(ctx, sub1, nil)
 	if err != nil {
 		return "cannot construct subscriber: " + err.Error(), nil, st
 	}
@@ -1113,7 +1167,8 @@ func runAndJudge(c *Case) (string, []judgement, stats) {
 
 	// ---- phase 2: controller (subscribes for both epochs on start), then attest slot by slot
 	sub2 := &subsSubmitter{}
-	s2, err := e.newSubscriber(ctx, sub2)
+	subFail := &flag{}
+	s2, err := e.newSubscriber(ctx, sub2, subFail)
 	if err != nil {
 		return "cannot construct subscriber: " + err.Error(), nil, st
 	}
@@ -1127,7 +1182,7 @@ func runAndJudge(c *Case) (string, []judgement, stats) {
 		standardcontroller.WithSpecProvider(specProvider{c.SlotsPerEpoch, c.Target}),
 		standardcontroller.WithChainTimeService(e.clock),
 		standardcontroller.WithProposerDutiesProvider(mock.NewProposerDutiesProvider()),
-		standardcontroller.WithAttesterDutiesProvider(&dutiesProvider{c, e.tab}),
+		standardcontroller.WithAttesterDutiesProvider(&dutiesProvider{c, e.tab, nil}),
 		standardcontroller.WithEventsProvider(evp),
 		standardcontroller.WithValidatingAccountsProvider(e.acc),
 		standardcontroller.WithProposalsPreparer(mockproposalpreparer.New()),
@@ -1154,8 +1209,11 @@ func runAndJudge(c *Case) (string, []judgement, stats) {
 		js = append(js, e.judgeSubscriptions("controller start-up", epoch, sub2.all(), pairs)...)
 	}
 
-	// ---- history step: the duties change (reorg across a duty-dependent root)
-	if r := c.Reorg; r != nil {
+	// ---- history steps: the duties change (reorg across a duty-dependent root) and/or a
+	// re-subscription attempt fails.  stale[epoch]: the duty pairs of the last SUCCESSFUL
+	// subscription of the epoch where they differ from the latest duties.
+	stale := map[uint64]map[pairKey]*pairInfo{}
+	if c.Reorg != nil || c.Refail != nil {
 		head := evp.handlers["head"]
 		if head == nil {
 			return "the controller did not register a head event handler", nil, st
@@ -1167,45 +1225,77 @@ func runAndJudge(c *Case) (string, []judgement, stats) {
 		if !quiesce(baseline) {
 			return "goroutines of the head event handler did not finish", nil, st
 		}
-		// time passes, the chain re-organises, the node serves the new duties
-		cur += r.Advance
-		e.clock.SetSlot(cur, 2*time.Second)
-		e.tab.set(r.Committees, r.Duties)
-		sub2.setPhase(1)
-		prevRoot, curRoot := mkRoot(10), mkRoot(20)
-		if r.Previous {
-			prevRoot = mkRoot(11)
-		}
-		if r.Current {
-			curRoot = mkRoot(21)
-		}
-		head(&apiv1.Event{Topic: "head", Data: &apiv1.HeadEvent{Slot: phase0.Slot(cur), Block: mkRoot(2),
-			PreviousDutyDependentRoot: prevRoot, CurrentDutyDependentRoot: curRoot}})
-		if !quiesce(baseline) {
-			return "goroutines of the duty refresh did not finish", nil, st
-		}
-		// what was validly subscribed before stays subscribed
-		covered := map[pairKey]bool{}
-		for _, x := range sub2.inPhase(0) {
-			covered[pairKey{uint64(x.Slot), uint64(x.CommitteeIndex)}] = true
-		}
-		oldPairs := pairs
-		pairs = buildPairs(c, r.Committees, r.Duties)
-		for _, epoch := range []uint64{c.Epoch, c.Epoch + 1} {
-			changed := (epoch == c.Epoch && r.Previous) || (epoch == c.Epoch+1 && r.Current)
-			js = append(js, e.judgeSubscriptionsAt("after the duty change", epoch, sub2.inPhase(1), pairs, cur, covered, changed)...)
-			if changed {
-				for k, p := range pairs {
-					if k.slot/c.SlotsPerEpoch == epoch && k.slot > cur && oldPairs[k] == nil {
-						st.reorgNewFuturePair = true
-						if len(p.selected) > 0 && p.hasAtt {
-							st.reorgNewAggregatorPair = true
+		prevRoot, curRoot := byte(10), byte(20)
+		if r := c.Reorg; r != nil {
+			// time passes, the chain re-organises, the node serves the new duties
+			cur += r.Advance
+			e.clock.SetSlot(cur, 2*time.Second)
+			e.tab.set(r.Committees, r.Duties)
+			sub2.setPhase(1)
+			if r.Previous {
+				prevRoot++
+			}
+			if r.Current {
+				curRoot++
+			}
+			subFail.set(r.SubscribeFails)
+			head(&apiv1.Event{Topic: "head", Data: &apiv1.HeadEvent{Slot: phase0.Slot(cur), Block: mkRoot(2),
+				PreviousDutyDependentRoot: mkRoot(prevRoot), CurrentDutyDependentRoot: mkRoot(curRoot)}})
+			ok := quiesce(baseline)
+			subFail.set(false)
+			if !ok {
+				return "goroutines of the duty refresh did not finish", nil, st
+			}
+			// what was validly subscribed before stays subscribed
+			covered := map[pairKey]bool{}
+			for _, x := range sub2.inPhase(0) {
+				covered[pairKey{uint64(x.Slot), uint64(x.CommitteeIndex)}] = true
+			}
+			oldPairs := pairs
+			pairs = buildPairs(c, r.Committees, r.Duties)
+			for _, epoch := range []uint64{c.Epoch, c.Epoch + 1} {
+				changed := (epoch == c.Epoch && r.Previous) || (epoch == c.Epoch+1 && r.Current)
+				// a refresh that cannot obtain the duties cannot subscribe them either
+				js = append(js, e.judgeSubscriptionsAt("after the duty change", epoch, sub2.inPhase(1), pairs, cur, covered, changed && !r.SubscribeFails)...)
+				if changed && r.SubscribeFails {
+					stale[epoch] = oldPairs
+					st.failedRefreshWithChange = true
+				}
+				if changed {
+					for k, p := range pairs {
+						if k.slot/c.SlotsPerEpoch == epoch && k.slot > cur && oldPairs[k] == nil {
+							st.reorgNewFuturePair = true
+							if len(p.selected) > 0 && p.hasAtt {
+								st.reorgNewAggregatorPair = true
+							}
 						}
 					}
 				}
 			}
+			st.reorg = true
 		}
-		st.reorg = true
+		if f := c.Refail; f != nil {
+			// roots change once more, the duties stay, the subscriber's request is refused
+			sub2.setPhase(2)
+			if f.Previous {
+				prevRoot++
+			}
+			if f.Current {
+				curRoot++
+			}
+			subFail.set(true)
+			head(&apiv1.Event{Topic: "head", Data: &apiv1.HeadEvent{Slot: phase0.Slot(cur), Block: mkRoot(3),
+				PreviousDutyDependentRoot: mkRoot(prevRoot), CurrentDutyDependentRoot: mkRoot(curRoot)}})
+			ok := quiesce(baseline)
+			subFail.set(false)
+			if !ok {
+				return "goroutines of the failing re-subscription did not finish", nil, st
+			}
+			for _, epoch := range []uint64{c.Epoch, c.Epoch + 1} {
+				js = append(js, e.judgeSubscriptionsAt("during the failing re-subscription", epoch, sub2.inPhase(2), pairs, cur, map[pairKey]bool{}, false)...)
+			}
+			st.refail = true
+		}
 	}
 
 	// duties per slot, as the controller obtains them (one merge per epoch)
@@ -1215,7 +1305,7 @@ func runAndJudge(c *Case) (string, []judgement, stats) {
 		for _, v := range e.vs {
 			idx = append(idx, phase0.ValidatorIndex(v))
 		}
-		resp, _ := (&dutiesProvider{c, e.tab}).AttesterDuties(ctx, &api.AttesterDutiesOpts{Epoch: phase0.Epoch(epoch), Indices: idx})
+		resp, _ := (&dutiesProvider{c, e.tab, nil}).AttesterDuties(ctx, &api.AttesterDutiesOpts{Epoch: phase0.Epoch(epoch), Indices: idx})
 		merged, err := attester.MergeDuties(ctx, resp.Data)
 		if err != nil {
 			return "MergeDuties failed: " + err.Error(), nil, st
@@ -1268,19 +1358,23 @@ func runAndJudge(c *Case) (string, []judgement, stats) {
 				js = append(js, judgement{"aggregation-wrong-slot", fmt.Sprintf("%s is for slot %d", where, jb.duty.Slot)})
 				continue
 			}
-			// which committee of the slot is this validator in?
+			// which committee of the slot is this validator in?  Where the last successful
+			// subscription of the epoch is older than the latest duties (failed refresh) the
+			// job may follow either.
 			var pk *pairKey
-			for k, p := range pairs {
-				if k.slot == slot && contains(p.vals, uint64(jb.duty.ValidatorIndex)) {
-					kk := k
-					pk = &kk
+			var p *pairInfo
+			for _, m := range []map[pairKey]*pairInfo{stale[slot/c.SlotsPerEpoch], pairs} {
+				for k, cand := range m {
+					if pk == nil && k.slot == slot && contains(cand.vals, uint64(jb.duty.ValidatorIndex)) {
+						kk := k
+						pk, p = &kk, cand
+					}
 				}
 			}
 			if pk == nil {
 				js = append(js, judgement{"aggregation-for-foreign-validator", where + ": the validator has no duty in this slot"})
 				continue
 			}
-			p := pairs[*pk]
 			gotFor[pk.committee]++
 			where = fmt.Sprintf("%s (committee %d)", where, pk.committee)
 			if !contains(p.selected, uint64(jb.duty.ValidatorIndex)) {
@@ -1308,7 +1402,22 @@ func runAndJudge(c *Case) (string, []judgement, stats) {
 		var missing []string
 		expected := 0
 		for k, p := range pairs {
-			if k.slot != slot || len(p.selected) == 0 || !p.hasAtt {
+			if k.slot != slot || !p.hasAtt {
+				continue
+			}
+			if old := stale[slot/c.SlotsPerEpoch]; old != nil {
+				// failed refresh: only what the last successful subscription knew and still stands is demanded
+				o := old[k]
+				stands := false
+				if o != nil {
+					for _, v := range o.selected {
+						stands = stands || contains(p.vals, v)
+					}
+				}
+				if !stands {
+					continue
+				}
+			} else if len(p.selected) == 0 {
 				continue
 			}
 			expected++
@@ -1334,7 +1443,7 @@ func check(t ev.TB, c *Case) {
 	if harness != "" {
 		t.Fatalf("harness problem: %s", harness)
 	}
-	nontrivial := st.bothSides || st.multiAggSlot || st.reorgNewFuturePair
+	nontrivial := st.bothSides || st.multiAggSlot || st.reorgNewFuturePair || st.refail || st.failedRefreshWithChange
 	var labels []string
 	if st.bothSides {
 		labels = append(labels, "duties-on-both-sides-of-current-slot")
@@ -1353,6 +1462,12 @@ func check(t ev.TB, c *Case) {
 	}
 	if st.reorg {
 		labels = append(labels, "history-with-duty-change")
+	}
+	if st.refail {
+		labels = append(labels, "history-with-failing-re-subscription")
+	}
+	if st.failedRefreshWithChange {
+		labels = append(labels, "duty-change-whose-re-subscription-fails")
 	}
 	if st.reorgNewFuturePair {
 		labels = append(labels, "duty-change-creates-new-future-pair")
